@@ -282,9 +282,12 @@ where
                 let text = editor.text_mut();
 
                 let tokens = Tokens::new(text);
-                self.process_input::<C, _>(tokens, processor)?;
+                let res = self.process_input::<C, _>(tokens, processor);
 
+                // input was split to tokens in place, so it must not be
+                // left in editor even if processing failed
                 editor.clear();
+                res?;
 
                 self.writer.flush_str(self.prompt)?;
             }
